@@ -1,0 +1,24 @@
+//go:build verif
+
+package parquet
+
+// Verification hooks (build tag "verif"): re-export the internal level
+// codecs so that an external harness can drive them directly.  Nothing in
+// the library calls these.
+
+import (
+	"github.com/parsyl/parquet/internal/bitpack"
+	"github.com/parsyl/parquet/internal/rle"
+)
+
+// VerifRLE aliases the internal hybrid RLE/bit-packing codec.
+type VerifRLE = rle.RLE
+
+// VerifNewRLE wraps rle.New.
+func VerifNewRLE(width int32, size int) (*VerifRLE, error) { return rle.New(width, size) }
+
+// VerifPack wraps bitpack.Pack.
+func VerifPack(b []byte, width int, vals []uint8) []byte { return bitpack.Pack(b, width, vals) }
+
+// VerifUnpack wraps bitpack.Unpack.
+func VerifUnpack(width int, vals []byte) []uint8 { return bitpack.Unpack(width, vals) }
